@@ -416,7 +416,7 @@ fn mixed_op(p: &mut Prng, sw: &Swarm, w: usize, db: usize, signed: bool, shape_w
         }
         _ => {
             let len = p.below(max_len + 1) as usize;
-            let stream = p.bytes(len * w + 16);
+            let stream = p.bytes(len * w + 8);
             Op { kind: OpKind::FillVsElem { len, stream }, dynamic, calls: vec![vec![]], shape: 0 }
         }
     }
